@@ -94,7 +94,7 @@ func checkC03(c *Ctx) {
 	valid := map[string]bool{}
 	var chunks [][]string
 	st, err := c.TLC(tlc.Run{Module: "LuaGrammar", Workers: 8, Timeout: 40 * time.Minute, JavaOpts: "-Xmx12g -Xmn256m -XX:ParallelGCThreads=4",
-		Cfg: fmt.Sprintf("CONSTANTS\n  MaxTok = %d\n  MaxStack = 14\n  Focus = \"chunk\"\n  DevParen = FALSE\nINIT Init\nNEXT Next\nINVARIANTS Bounded Emit\nCHECK_DEADLOCK FALSE\n", n)},
+		Cfg: fmt.Sprintf("CONSTANTS\n  MaxTok = %d\n  MaxStack = 14\n  Focus = \"chunk\"\n  DevParen = FALSE\nINIT Init\nNEXT Next\nINVARIANTS Bounded Balanced Emit\nCHECK_DEADLOCK FALSE\n", n)},
 		func(j json.RawMessage) {
 			var o struct {
 				Toks []string `json:"toks"`
@@ -115,7 +115,7 @@ func checkC03(c *Ctx) {
 	// the as-built language under the listed deviation (same machine, DevParen = TRUE)
 	validDev := map[string]bool{}
 	st2, err := c.TLC(tlc.Run{Module: "LuaGrammar", Workers: 8, Timeout: 40 * time.Minute, JavaOpts: "-Xmx12g -Xmn256m -XX:ParallelGCThreads=4",
-		Cfg: fmt.Sprintf("CONSTANTS\n  MaxTok = %d\n  MaxStack = 14\n  Focus = \"chunk\"\n  DevParen = TRUE\nINIT Init\nNEXT Next\nINVARIANTS Bounded Emit\nCHECK_DEADLOCK FALSE\n", n)},
+		Cfg: fmt.Sprintf("CONSTANTS\n  MaxTok = %d\n  MaxStack = 14\n  Focus = \"chunk\"\n  DevParen = TRUE\nINIT Init\nNEXT Next\nINVARIANTS Bounded Balanced Emit\nCHECK_DEADLOCK FALSE\n", n)},
 		func(j json.RawMessage) {
 			var o struct {
 				Toks []string `json:"toks"`
@@ -198,21 +198,25 @@ func checkC03(c *Ctx) {
 		pre, suf int // frame tokens before and after the hole
 		alphabet []string
 		bound    int
+		brackets bool // long flat list: the only edits are deletions of a bracket and its replacement by a keyword; such a
+		// text has unbalanced brackets, and LuaGrammar.tla's invariant Balanced says no chunk has
 	}
 	fb := 11
 	if c.Thorough() {
 		fb = 13
 	}
 	for _, fc := range []focus{
-		{"params", 3, 2, []string{"name", ",", "..."}, fb},
-		{"forin", 2, 4, []string{"name", ","}, fb},
-		{"attnames", 1, 1, []string{"name", ",", "attr"}, fb - 3},
-		{"funcname", 1, 3, []string{"name", ".", ":"}, fb},
+		{"params", 3, 2, []string{"name", ",", "..."}, fb, false},
+		{"forin", 2, 4, []string{"name", ","}, fb, false},
+		{"attnames", 1, 1, []string{"name", ",", "attr"}, fb - 3, false},
+		{"funcname", 1, 3, []string{"name", ".", ":"}, fb, false},
+		{"flatfields", 4, 1, nil, 120, true},
+		{"flatargs", 2, 1, nil, 80, true},
 	} {
 		fvalid := map[string]bool{}
 		var fchunks [][]string
 		stf, err := c.TLC(tlc.Run{Module: "LuaGrammar", Workers: 4, Timeout: 20 * time.Minute,
-			Cfg: fmt.Sprintf("CONSTANTS\n  MaxTok = %d\n  MaxStack = 14\n  Focus = %q\n  DevParen = FALSE\nINIT Init\nNEXT Next\nINVARIANTS Bounded Emit\nCHECK_DEADLOCK FALSE\n", fc.bound, fc.name)},
+			Cfg: fmt.Sprintf("CONSTANTS\n  MaxTok = %d\n  MaxStack = 14\n  Focus = %q\n  DevParen = FALSE\nINIT Init\nNEXT Next\nINVARIANTS Bounded Balanced Emit\nCHECK_DEADLOCK FALSE\n", fc.bound, fc.name)},
 			func(j json.RawMessage) {
 				var o struct {
 					Toks []string `json:"toks"`
@@ -254,6 +258,19 @@ func checkC03(c *Ctx) {
 				seenM["F:"+fc.name+":"+mk] = true
 				nmut++
 				addCase(m, false, how+"/"+fc.name, hash64(mk, c.Seed))
+			}
+			if fc.brackets {
+				for i, t := range ch {
+					if t == "{" || t == "}" || t == "(" || t == ")" {
+						fmut(append(append([]string{}, ch[:i]...), ch[i+1:]...), "delete-bracket")
+						if t == "{" || t == "(" {
+							sub := append([]string{}, ch...)
+							sub[i] = "do"
+							fmut(sub, "bracket-to-do")
+						}
+					}
+				}
+				continue
 			}
 			lo, hi := fc.pre, len(ch)-fc.suf // the hole is ch[lo:hi]
 			for i := lo; i <= hi; i++ {
